@@ -179,10 +179,12 @@ Theorem C07_aborted_tx_invisible : forall (V : Type) (s : fstate V) (fresh0 : li
 Proof. exact aborted_tx_invisible. Qed.
 Print Assumptions C07_aborted_tx_invisible.
 
-(* the file itself after an aborted transaction on a bounded file: truncated to exactly the end of the state the
-   transaction started from *)
+(* the file itself after an aborted transaction on a bounded file: truncated to the end of the state the
+   transaction started from, or of the state of the other header page if that is larger *)
 From VF Require Import Truncate TruncateProofs.
-Theorem C07_rollback_truncates_to_the_committed_end : forall metaEnd dataEnd sz ps mp n,
-  0 < ps -> rollback_truncate metaEnd dataEnd sz ps mp = Some n ->
-  n < sz /\ n = Z.max metaEnd dataEnd * ps /\ (forall id, 0 <= id < Z.max metaEnd dataEnd -> (id + 1) * ps <= n).
+Theorem C07_rollback_truncates_to_the_committed_end : forall metaEnd dataEnd otherEnd sz ps mp n,
+  0 < ps -> rollback_truncate metaEnd dataEnd otherEnd sz ps mp = Some n ->
+  n < sz /\ n = Z.max (Z.max metaEnd dataEnd) otherEnd * ps /\
+  (forall id, 0 <= id < Z.max metaEnd dataEnd -> (id + 1) * ps <= n) /\
+  (forall id, 0 <= id < otherEnd -> (id + 1) * ps <= n).
 Proof. exact rollback_truncate_spec. Qed.
